@@ -9,7 +9,9 @@ RULE = ("engine proc: the real Processor in lock-step (trackProgress) with a scr
         "until answered; histories of 1-3 applications: transactions (real flatbuffers through processBinary/AggregateInto), harvest "
         "triggers with every mask (all, default data, single and combined event categories), replies in any order relative to later "
         "events, restarts, agent queries, clock advances, final CleanExit. Non-trivial = history contains transactions, a trigger and a "
-        "reply; distinct = distinct op lists.")
+        "reply; distinct = distinct op lists. Batch carry (engine res): the real analyticsEvents.Split / MergeFailed / AddEvent on reservoirs "
+        "of 34-130 events: a half of a split payload is handed back into the next period's reservoir and more events arrive; Spec: nothing "
+        "offered is dropped below the negotiated capacity.")
 ASSUMPTIONS = ["run ids issued by the collector are distinct; one outstanding connect attempt per application",
                "daemon-generated metrics other than the Seen/Sent/Dropped rows are filtered out of the comparison (they are forced and the engine stays far below the 2000 limit)",
                "a harvest trigger for a run that has already been shut down is not generated"]
@@ -23,14 +25,36 @@ DESIGN_REF = "DESIGN.md §6 C01"
 
 
 def plan(ctx):
-    return pc.plan_proc(ctx, ID, ["mixed", "allok", "allok", "nofatal"], 60, 3000)
+    from checks import gen_containers as g
+    batches = pc.plan_proc(ctx, ID, ["mixed", "allok", "allok", "nofatal"], 60, 3000)
+    # the containers' hand-back path at sizes the processor histories do not reach: a split payload (large reservoirs), one
+    # half refused and merged into the next period's reservoir, then more events (engine res: the real analyticsEvents)
+    n = 40 if ctx["tier"] == "quick" else 1500
+    batches.append(("carry", [("sc%d" % i, g.res_split_carry(ctx["rng"])) for i in range(n)]))
+    return batches
 
 
 def run(ctx, bname, seqs):
+    if bname == "carry" or (seqs and seqs[0][1] and seqs[0][1][0].startswith("res ")):
+        from lib import vlib
+        rs = vlib.run_sequences(seqs, ctx["work"], tag=bname)
+        for r in rs:
+            r.spec = [(i, m) for (i, m) in r.spec if m.startswith(PREFIX)]
+        return rs
     return pc.run_proc(ctx, bname, seqs, PREFIX)
 
 
-tags = pc.tags_proc
-nontrivial = pc.nontrivial_proc
+def tags(r):
+    if r.ops and r.ops[0].startswith("res "):
+        return {"res:" + o.split()[1] for o in r.ops}
+    return pc.tags_proc(r)
+
+
+def nontrivial(r):
+    if r.ops and r.ops[0].startswith("res "):
+        return any(o.startswith("res mergefailed") for o in r.ops)
+    return pc.nontrivial_proc(r)
+
+
 SHRINK = True
 PIN_PREFIX = 1
